@@ -1899,8 +1899,10 @@ mod trait_handlers;
 
 use std::collections::HashMap;
 
+#[cfg(not(magiclen_educe_verif))]
 use proc_macro::TokenStream;
 use supported_traits::Trait;
+#[cfg_attr(magiclen_educe_verif, allow(unused_imports))]
 use syn::{
     parse::{Parse, ParseStream},
     parse_macro_input,
@@ -2115,6 +2117,13 @@ fn derive_input_handler(ast: DeriveInput) -> syn::Result<proc_macro2::TokenStrea
     Ok(token_stream)
 }
 
+/// Verification hook: the derive entry point as an ordinary function over `proc_macro2` tokens.
+#[cfg(magiclen_educe_verif)]
+pub fn verif_expand(input: proc_macro2::TokenStream) -> syn::Result<proc_macro2::TokenStream> {
+    derive_input_handler(syn::parse2::<DeriveInput>(input)?)
+}
+
+#[cfg(not(magiclen_educe_verif))]
 #[proc_macro_derive(Educe, attributes(educe))]
 pub fn educe_derive(input: TokenStream) -> TokenStream {
     struct MyDeriveInput(proc_macro2::TokenStream);
